@@ -379,6 +379,27 @@ def run_check(pid, spec, tier, seed, replay=None, keep=False):
             agg["counters"]["race_detector_runs"] = agg["counters"].get("race_detector_runs", 0) + 1
         notes.append("%s: exit %d in %.0fs" % (jn, rc, dt))
 
+    # cross-process agreement: info keys with the given prefix must have one value in all children
+    pref = spec.get("agree_info_prefix")
+    if pref:
+        vals = {}
+        for jn, j, rc_, lf, dt in results:
+            rf = os.path.join(outdir, "result-%s.json" % jn)
+            if os.path.exists(rf):
+                try:
+                    for k, v in (json.load(open(rf)).get("info") or {}).items():
+                        if k.startswith(pref):
+                            vals.setdefault(k, {}).setdefault(str(v), []).append(jn)
+                except Exception:
+                    pass
+        nagree = 0
+        for k, m in sorted(vals.items()):
+            if len(m) > 1:
+                agg["violations"].append({"sig": "cross-process-disagreement", "desc": "children disagree on %s: %s" % (k, m), "job": "driver", "replay": m})
+            elif sum(len(x) for x in m.values()) > 1:
+                nagree += 1
+        agg["counters"]["cross_process_agreements"] = nagree
+
     # floors
     for k, mn in spec.get("floors", {}).items():
         m = mn[ti] if isinstance(mn, (tuple, list)) else mn
